@@ -106,9 +106,20 @@ theorem Inv.stepThread {c : Cfg} {o : Orders} {s s' : State} {t ch : Nat} {l : L
     rename_i i hp
     split at h
     · cases h
+    · rename_i m nb hr
+      cases h
+      exact inv.step_rl0 hp (QuietMem.of_read inv.wf hr)
+  · -- rl1
+    rename_i i hp
+    cases h
+    exact inv.step_rl1 hp
+  · -- rl2
+    rename_i i hp
+    split at h
+    · cases h
     · rename_i m old hr
       cases h
-      exact inv.step_rl0 ho hp hr
+      exact inv.step_rl2 ho hp hr
   · -- tk0
     rename_i hp
     split at h
@@ -162,7 +173,8 @@ theorem Inv.step {c : Cfg} {o : Orders} {s s' : State} (inv : Inv c o s) (hbs : 
   case lock hidle htls hown => exact inv.callLock hidle htls hown
   case lockT hidle _ hts => exact inv.callLockT hidle hts
   case unlock hidle hown hlt => exact inv.callUnlock hidle hown hlt
-  case release hidle hown hlt => exact inv.callRelease hidle hown hlt
+  case release hidle _ hown => exact inv.callRelease hidle hown
+  case releaseT hidle _ hown hlt => exact inv.callReleaseT hidle hown hlt
   case tick hidle => exact inv.callTick hidle
   case scan hidle => exact inv.callScan hidle
   case move htls hown hnu hidle hle => exact inv.step_move htls hown hnu hidle hle
